@@ -797,7 +797,8 @@ Section Sim2.
       assert (Hp : mon_run m (if s_cprod s then [EProdResume (pred (length (s_rq s)))] else []) = Some m)
         by (destruct (s_cprod s); reflexivity).
       rewrite mon_run_app, Hp. destruct HR as (A & B & C & D & F & G & J & K & L).
-      destruct (s_handling s) eqn:Eh; eexists; (split; [reflexivity|]); unfold R, open_ok in *; cbn; repeat split; auto;
+      destruct (s_handling s) eqn:Eh; cbn [andb]; [destruct (eager <? s_recv s - s_cons s)%N|];
+        eexists; (split; [reflexivity|]); unfold R, open_ok in *; cbn; repeat split; auto;
         try (intros; congruence); try (intros _; exact (J El)).
     - (* connection lost *)
       intro E. destruct (lose0_sim sync [] _ _ _ _ HR E) as (m' & A & B & _). exists m'. auto.
